@@ -1160,6 +1160,34 @@ def inline_single_use_temps(tree: ast.Module) -> int:
                         if any(isinstance(x, (ast.NamedExpr, ast.Yield, ast.YieldFrom, ast.Await)) for x in ast.walk(st.value)):
                             continue
                         use = loads[t][0]
+                        if isinstance(st.value, ast.Lambda):
+                            # a lambda bound to a name that is used once: writing the lambda where the name stands changes nothing (creating it has no
+                            # effect and its free names are looked up when it is called) - unless a comprehension around the use re-binds one of them
+                            lam = st.value
+                            own = {a.arg for a in lam.args.args + lam.args.kwonlyargs + lam.args.posonlyargs} | ({lam.args.vararg.arg} if lam.args.vararg else set()) | ({lam.args.kwarg.arg} if lam.args.kwarg else set())
+                            free = {x.id for x in ast.walk(lam.body) if isinstance(x, ast.Name)} - own
+                            cur_, clash, inside_def = use, False, False
+                            while id(cur_) in parents:
+                                cur_ = parents[id(cur_)]
+                                if isinstance(cur_, _COMP) and any(isinstance(x, ast.Name) and x.id in free for g_ in cur_.generators for x in ast.walk(g_.target)):
+                                    clash = True
+                                if isinstance(cur_, (ast.FunctionDef, ast.AsyncFunctionDef, ast.Lambda)) and cur_ is not fn:
+                                    inside_def = True
+                            later = any(use is x for later_st in lst[i + 1:] for x in ast.walk(later_st))
+                            if not clash and not inside_def and later:
+                                par_ = parents[id(use)]
+                                for fld, v in ast.iter_fields(par_):
+                                    if v is use:
+                                        setattr(par_, fld, lam)
+                                    elif isinstance(v, list):
+                                        for j_, x in enumerate(v):
+                                            if x is use:
+                                                v[j_] = lam
+                                del lst[i]
+                                total += 1
+                                done = True
+                                break
+                            continue
                         hs = _hoistable_expr(use, parents)
                         if hs is None or hs is not lst[i + 1]:
                             continue
@@ -1233,30 +1261,29 @@ def _hoistable_expr(node: ast.AST, parents: dict[int, ast.AST]) -> Optional[ast.
 
 
 def _leaf_assigns(node: ast.If, name: Optional[str] = None) -> Optional[tuple[str, list[ast.Assign]]]:
-    """if/elif/.../else where every branch is exactly `t = V_i` for one name t -> (t, the assignments)."""
+    """if/elif/.../else where every branch ends in `t = V_i` for one name t (or never falls through) -> (t, the assignments).  What a branch
+    does before its final assignment is its own business: the callers make sure t is neither read nor written there."""
     out: list[ast.Assign] = []
 
     def leaf(body: list[ast.stmt]) -> bool:
         nonlocal name
         if len(body) == 1 and isinstance(body[0], ast.If):
             return chain(body[0])
-        if len(body) == 1 and isinstance(body[0], ast.Assign) and len(body[0].targets) == 1 and isinstance(body[0].targets[0], ast.Name):
+        if body and isinstance(body[-1], ast.Assign) and len(body[-1].targets) == 1 and isinstance(body[-1].targets[0], ast.Name):
             if name is None:
-                name = body[0].targets[0].id
-            if body[0].targets[0].id != name:
+                name = body[-1].targets[0].id
+            if body[-1].targets[0].id != name:
                 return False
-            out.append(body[0])
+            out.append(body[-1])
             return True
-        return False
+        return bool(body) and _always_returns(body)  # this branch never reaches the statement after the `if`
 
     def chain(n: ast.If) -> bool:
         if not n.orelse:
             return False
-        if not (len(n.body) == 1 and isinstance(n.body[0], ast.Assign) and leaf(n.body)):
-            return False
-        return leaf(n.orelse)
+        return leaf(n.body) and leaf(n.orelse)
 
-    if chain(node) and name is not None:
+    if chain(node) and name is not None and out:
         return name, out
     return None
 
@@ -1396,6 +1423,137 @@ def any_to_loop(tree: ast.Module) -> int:
 # --------------------------------------------------------------------------------------------------------------------------
 # N8 map / filter
 # --------------------------------------------------------------------------------------------------------------------------
+
+
+class _Subst(ast.NodeTransformer):
+    def __init__(self, mapping: dict[str, ast.expr]):
+        self.mapping = mapping
+
+    def visit_Name(self, node: ast.Name):
+        if isinstance(node.ctx, ast.Load) and node.id in self.mapping:
+            return copy.deepcopy(self.mapping[node.id])
+        return node
+
+
+def _binds(node: ast.AST, name: str) -> bool:
+    """`name` is (re)bound somewhere inside node (store, lambda parameter, comprehension target)"""
+    for x in ast.walk(node):
+        if isinstance(x, ast.Name) and x.id == name and isinstance(x.ctx, (ast.Store, ast.Del)):
+            return True
+        if isinstance(x, ast.arg) and x.arg == name:
+            return True
+    return False
+
+
+def unroll_literal_iterations(tree: ast.Module) -> int:
+    """A loop or a leading comprehension generator over a short literal tuple / list is written out element by element:
+        for p in ("d", "f"): S(p)                      ->  S("d"); S("f")
+        {K(f, d): d for f in (A, B) for d in G if c}   ->  {K(A, d): d for d in G if c} | {K(B, d): d for d in G if c}
+    and a lambda applied on the spot is replaced by its body.  (Rolling two statements into a loop over their differing part and unrolling
+    it again are the same program; the unrolled form is the normal form.)"""
+    n = 0
+
+    def simple(e: ast.AST) -> bool:
+        return isinstance(e, (ast.Constant, ast.Name, ast.Attribute, ast.Lambda)) and not any(isinstance(x, (ast.Call, ast.NamedExpr, ast.Yield, ast.Await)) for x in ast.walk(e) if x is not e and not isinstance(e, ast.Lambda))
+
+    class C(ast.NodeTransformer):
+        def _comp(self, node, build, op):
+            nonlocal n
+            self.generic_visit(node)
+            g0 = node.generators[0]
+            if len(node.generators) < 2 or g0.ifs or g0.is_async or not isinstance(g0.target, ast.Name) or not isinstance(g0.iter, (ast.Tuple, ast.List)) \
+                    or not (1 <= len(g0.iter.elts) <= 4) or not all(simple(e) for e in g0.iter.elts):
+                return node
+            v = g0.target.id
+            rest = node.generators[1:]
+            if any(_binds(g, v) for g in rest):
+                return node
+            parts = []
+            for e in g0.iter.elts:
+                sub = _Subst({v: e})
+                parts.append(build(node, sub, [sub.visit(copy.deepcopy(g)) for g in rest]))
+            out = parts[0]
+            for p_ in parts[1:]:
+                out = ast.BinOp(left=out, op=op(), right=p_)
+            n += 1
+            return ast.copy_location(out, node)
+
+        def visit_DictComp(self, node):
+            return self._comp(node, lambda nd, sub, gens: ast.DictComp(key=sub.visit(copy.deepcopy(nd.key)), value=sub.visit(copy.deepcopy(nd.value)), generators=gens), ast.BitOr)
+
+        def visit_SetComp(self, node):
+            return self._comp(node, lambda nd, sub, gens: ast.SetComp(elt=sub.visit(copy.deepcopy(nd.elt)), generators=gens), ast.BitOr)
+
+        def visit_ListComp(self, node):
+            return self._comp(node, lambda nd, sub, gens: ast.ListComp(elt=sub.visit(copy.deepcopy(nd.elt)), generators=gens), ast.Add)
+
+        def visit_Call(self, node: ast.Call):
+            nonlocal n
+            self.generic_visit(node)
+            f = node.func
+            if isinstance(f, ast.Lambda) and not node.keywords and not f.args.vararg and not f.args.kwarg and not f.args.kwonlyargs and not f.args.defaults \
+                    and len(f.args.args) == len(node.args) and not f.args.posonlyargs and all(isinstance(a, (ast.Name, ast.Attribute, ast.Constant)) for a in node.args):
+                names = [a.arg for a in f.args.args]
+                inner_binds = any(_binds(x, nm) for nm in names for x in ast.walk(f.body) if isinstance(x, (ast.Lambda, ast.ListComp, ast.SetComp, ast.DictComp, ast.GeneratorExp)))
+                if not inner_binds:
+                    n += 1
+                    return ast.copy_location(_Subst(dict(zip(names, node.args))).visit(copy.deepcopy(f.body)), node)
+            return node
+
+    C().visit(tree)
+    C().visit(tree)  # (a lambda that the first round moved into applied position)
+    # statement loops over a short literal
+    for node in ast.walk(tree):
+        for lst in _stmt_lists(node):
+            i = 0
+            while i < len(lst):
+                st = lst[i]
+                if isinstance(st, ast.For) and not st.orelse and isinstance(st.target, ast.Name) and isinstance(st.iter, (ast.Tuple, ast.List)) and 1 <= len(st.iter.elts) <= 4 \
+                        and all(isinstance(e, ast.Constant) for e in st.iter.elts) \
+                        and not any(isinstance(x, (ast.Break, ast.Continue)) for b in st.body for x in ast.walk(b)) \
+                        and not any(_binds(b, st.target.id) for b in st.body):
+                    new: list[ast.stmt] = []
+                    for e in st.iter.elts:
+                        sub = _Subst({st.target.id: e})
+                        new += [sub.visit(copy.deepcopy(b)) for b in st.body]
+                    lst[i:i + 1] = new
+                    n += 1
+                    i += len(new)
+                    continue
+                i += 1
+    ast.fix_missing_locations(tree)
+    return n
+
+
+def getters_to_lambdas(tree: ast.Module) -> int:
+    """`operator.itemgetter(k)` / `attrgetter("a")` written out as the lambda they stand for (`lambda g: g[k]`, `lambda g: g.a`), so that a key
+    function has one spelling."""
+    n = 0
+
+    class G(ast.NodeTransformer):
+        def visit_Call(self, node: ast.Call):
+            nonlocal n
+            self.generic_visit(node)
+            nm = node.func.id if isinstance(node.func, ast.Name) else node.func.attr if isinstance(node.func, ast.Attribute) and isinstance(node.func.value, ast.Name) and node.func.value.id == "operator" else None
+            if nm not in ("itemgetter", "attrgetter") or not node.args or node.keywords or any(isinstance(a, ast.Starred) for a in node.args):
+                return node
+            var = ast.Name(id="__g", ctx=ast.Load())
+            parts = []
+            for a in node.args:
+                if nm == "itemgetter":
+                    parts.append(ast.Subscript(value=var, slice=a, ctx=ast.Load()))
+                elif isinstance(a, ast.Constant) and isinstance(a.value, str) and a.value.isidentifier():
+                    parts.append(ast.Attribute(value=var, attr=a.value, ctx=ast.Load()))
+                else:
+                    return node
+            body = parts[0] if len(parts) == 1 else ast.Tuple(elts=parts, ctx=ast.Load())
+            lam = ast.Lambda(args=ast.arguments(posonlyargs=[], args=[ast.arg(arg="__g")], kwonlyargs=[], kw_defaults=[], defaults=[]), body=body)
+            n += 1
+            return ast.copy_location(lam, node)
+
+    G().visit(tree)
+    ast.fix_missing_locations(tree)
+    return n
 
 
 def map_filter_to_comprehensions(tree: ast.Module) -> int:
